@@ -20,7 +20,10 @@ RULE = ("type-directed generator over the Elasticsearch response shapes (bulk, s
         "JSON values; adversarial strings (quotes, backslashes, brackets, 'sort', '\"sort\"', control and non-ASCII characters), "
         "int/float/exponent literals, shuffled key order, 8 whitespace/escaping styles; a case is non-trivial when the document "
         "has at least one item/hit; signature = (model branch tags, outcome class, shape knobs); session streams: 2-6 calls on one "
-        "shared instance / registered runner with varying parameters, non-trivial when the calls differ in path / pit / hits_total / type")
+        "shared instance / registered runner with varying parameters, non-trivial when the calls differ in path / pit / hits_total / type; "
+        "bulk responses with 4-33 failed items whose reasons differ per item (distinct (status, reason) pairs around and beyond the five shown); "
+        "concurrent_searches: 2-4 paginated searches with page sizes 1..100 and totals at the page boundaries in flight together on the "
+        "registered runner, non-trivial when their requests really interleave and the page sizes differ")
 TRUSTED = [
     "CPython json.loads is the reference full parser (the Lean renderer is validated against it on every document)",
     "ijson 2.6.1 pure-python backend: its event stream is modelled on JSON values and compared with the real library on every generated document",
@@ -222,7 +225,9 @@ def shuffled(rng, pairs, p):
 # ---------------------------------------------------------------------------------------------
 # Elasticsearch shapes
 # ---------------------------------------------------------------------------------------------
-def gen_bulk_item(rng, fail_p, shard_fail_p):
+def gen_bulk_item(rng, fail_p, shard_fail_p, uniq=None):
+    """`uniq`: a pool of distinct prefixes — the reasons of the failed items then differ from item to item (version
+    conflicts name the document), so the number of DISTINCT (status, reason) pairs grows with the number of items"""
     op = rng.choice(["index", "create", "update", "delete"])
     failed = rng.random() < fail_p
     status = rng.choice([400, 404, 409, 429, 500, 503, 300]) if failed else rng.choice([200, 201, 201, 299])
@@ -234,6 +239,8 @@ def gen_bulk_item(rng, fail_p, shard_fail_p):
         if e < 0.86:
             rk = rng.random()
             reason = ["reason", gen_str(rng, 0.5)] if rk < 0.85 else (["reason", None] if rk < 0.95 else None)
+            if uniq and reason is not None and reason[1] is not None:
+                reason = ["reason", "[" + uniq.pop() + "]: " + reason[1]]
             es_shape = reason is not None
             err = shuffled(rng, [["type", rng.choice(["version_conflict_engine_exception", "mapper_parsing_exception"])], reason,
                                  ["caused_by", O(["type", "x"], ["reason", gen_str(rng)])] if rng.random() < 0.2 else None], 0.3)
@@ -266,9 +273,16 @@ def gen_bulk_doc(rng):
     fail_p = 0.0 if mode < 0.35 else rng.choice([0.1, 0.5, 1.0])
     shard_fail_p = rng.choice([0.0, 0.0, 0.0, 0.3])
     n = rng.choice([0, 1, 1, 2, 3, 5, 8])
+    uniq = None
+    if rng.random() < 0.22:
+        # many failed items with reasons of their own: around the limit of five shown entries and well beyond
+        n = rng.choice([4, 5, 6, 7, 8, 9, 12, 20, 33])
+        fail_p = rng.choice([0.6, 0.9, 1.0])
+        uniq = ["%s%02d" % (rng.choice(["doc-", "dö\"c]-", ""]), k) for k in range(n)]
+        rng.shuffle(uniq)
     items, any_failed, any_shard, es_shape = [], False, False, True
     for _ in range(n):
-        it, f, sf, es = gen_bulk_item(rng, fail_p, shard_fail_p)
+        it, f, sf, es = gen_bulk_item(rng, fail_p, shard_fail_p, uniq)
         items.append(it)
         any_failed |= f
         any_shard |= sf
@@ -678,6 +692,25 @@ def oracle_item_failed(data):
     return data["status"] > 299 or ("_shards" in data and data["_shards"]["failed"] > 0)
 
 
+def oracle_description(datas):
+    """the property's reading of `error-description` on an in-shape response, from the full parse alone: the DISTINCT
+    (status, error.reason) pairs of ALL failed items, smallest five shown, the rest summarised per status"""
+    pairs = set()
+    for d in datas:
+        if oracle_item_failed(d):
+            pairs.add((d["status"], d["error"]["reason"] if "error" in d else None))
+    if not pairs:
+        return None, 0
+    ordered = sorted(pairs, key=lambda p: (p[0], p[1] or ""))
+    text = " | ".join(f"HTTP status: {st}, message: {r}" if r else f"HTTP status: {st}" for st, r in ordered[:5])
+    if len(ordered) > 5:
+        per = {}
+        for st, _ in ordered:
+            per[st] = per.get(st, 0) + 1
+        text += " | TRUNCATED " + ", ".join(f"{per[st]}x{st}" for st in sorted(per))
+    return text, len(pairs)
+
+
 def run_bulk(ctx, case, b=None):
     from esrally.driver import runner
 
@@ -701,6 +734,13 @@ def run_bulk(ctx, case, b=None):
         ret[name] = ii
         if mm != ii:
             ctx.diff("bulk-" + name, mm, ii)
+        # what the path SAYS about the failures (error-type / error-description of the returned stats)
+        if "ok" in impl and "ok" in mod:
+            mdesc = None if mod["ok"]["description"] is None else dec(mod["ok"]["description"])
+            idesc = impl["ok"].get("error-description")
+            if mdesc != idesc or (idesc is not None) != (impl["ok"].get("error-type") == "bulk"):
+                ctx.diff("bulk-error-description-" + name, mdesc, [idesc, impl["ok"].get("error-type")])
+            ret[name + "-description"] = idesc
         # error details: the set handed to error_description, observed through extract_error_details itself
         if "ok" in impl and "ok" in mod:
             exp_details = sorted([[s, None if r is None else dec(r)] for s, r in mod["ok"]["details"]], key=lambda p: (p[0], p[1] is not None, p[1] or ""))
@@ -747,8 +787,18 @@ def run_bulk(ctx, case, b=None):
                 ctx.fail(cls, "simple_stats disagrees with the items of the response", exp, stats_canon_impl(s))
             if "took" in full and not isinstance(full["took"], (dict, list)) and loose(s.get("took")) != loose(full["took"]):
                 ctx.fail("bulk-fast-took", "took differs from full parsing", loose(full["took"]), loose(s.get("took")))
+        # what is said about the failures equals what full parsing of the same bytes finds, in both paths
+        exp_desc, ndistinct = oracle_description(datas)
+        ctx.count("distinct-failures:" + (str(ndistinct) if ndistinct <= 7 else "8+"))
+        if "ok" in di and di["ok"].get("error-description") != exp_desc:
+            ctx.fail("bulk-detailed-error-description", "error-description of detailed_stats differs from the failed items of the response",
+                     exp_desc, di["ok"].get("error-description"))
+        if "ok" in si and si["ok"]["error-count"] > 0 and si["ok"].get("error-description") != exp_desc:
+            ctx.fail("bulk-fast-error-description", "error-description of simple_stats differs from the failed items of the response (full parse / detailed path)",
+                     exp_desc, si["ok"].get("error-description"))
     ctx.count("flag:" + info["flag_mode"])
-    ctx.sig([m.get("tags"), info["flag_mode"], info["shard_fail"], info["any_failed"], case["unit_docs"], min(info["n"], 2)],
+    nd = len({json.dumps(x) for x in m["r"]["detailed"]["ok"]["details"]}) if "ok" in m["r"]["detailed"] else -1
+    ctx.sig([m.get("tags"), info["flag_mode"], info["shard_fail"], info["any_failed"], case["unit_docs"], min(info["n"], 2), min(nd, 7)],
             nontrivial=info["n"] > 0)
     return ret
 
@@ -1592,8 +1642,11 @@ def run_bulk_runner(ctx, case, env):
         mm["ok"]["error-type"] = "bulk"
     if "ok" in mm:
         mm["ok"].update(index="idx", weight=case["bulk_size"], unit=unit)
+        if mod["ok"]["description"] is not None:
+            mm["ok"]["error-description"] = dec(mod["ok"]["description"])
     ii = m_except(i, lambda r: dict(stats_canon_impl(r), index=r.get("index"), weight=r.get("weight"), unit=r.get("unit"),
-                                    **({"error-type": r["error-type"]} if "error-type" in r else {})))
+                                    **({"error-type": r["error-type"]} if "error-type" in r else {}),
+                                    **({"error-description": r["error-description"]} if "error-description" in r else {})))
     if mm != ii:
         ctx.diff("bulk-runner-call", mm, ii)
 
@@ -1627,6 +1680,169 @@ def run_query_session(ctx, case):
     ctx.count("query-session-ops:" + str(len(set(seen))))
 
 
+# ---------------------------------------------------------------------------------------------
+# stream 10: several paginated searches IN FLIGHT TOGETHER on the runner Rally registers for the operation type (one
+# shared Query object for all clients / parallel tasks / composite streams of a worker): the fake endpoint suspends at
+# every page request, so the searches interleave at each `await`; every search must end as the model says for its OWN
+# parameters (theorem searches_in_flight_independent; the model is run under the schedule that was observed) and as
+# full parsing of its own pages says
+# ---------------------------------------------------------------------------------------------
+class SuspendingEs(FakeEs):
+    def __init__(self, texts, idx, log, delays):
+        super().__init__(texts)
+        self.idx, self.log, self.delays = idx, log, list(delays)
+
+    async def perform_request(self, method=None, path=None, params=None, body=None, headers=None, **kw):
+        self.requests.append({"path": path, "body": json.loads(json.dumps(body, default=_ser)) if body is not None else None})
+        for _ in range(self.delays.pop(0) if self.delays else 1):
+            await asyncio.sleep(0)
+        self.log.append(self.idx)
+        if not self.texts:
+            raise Exhausted()
+        return io.BytesIO(self.texts.pop(0).encode("utf-8"))
+
+
+def pages_needed(total, size, pages_param):
+    need = 1
+    while total > need * size:
+        need += 1
+    return need if pages_param == "all" else min(need, int(pages_param))
+
+
+def gen_concurrent(ctx):
+    rng = ctx.rng
+    for _ in range(ctx.budget):
+        style = gen_style(rng, 0.9)
+        if style.get("before_colon"):
+            style = {}
+        n = rng.choice([2, 2, 3, 4])
+        same_size = rng.random() < 0.15
+        size0 = rng.choice([1, 2, 3, 5, 10, 100])
+        searches = []
+        for _k in range(n):
+            size = size0 if same_size else rng.choice([1, 2, 3, 5, 10, 100])
+            total = rng.choice([0, 1, size - 1, size, size + 1, 2 * size, 2 * size + 1, 3 * size, 4 * size + 1, 7, 30, 10000])
+            pages_param = rng.choice(["all", "all", "all", 1, 2, 3, 5])
+            npages = min(pages_needed(total, size, pages_param), 6) + rng.choice([0, 0, 1])
+            if rng.random() < 0.1:
+                npages = max(1, npages - 1)
+            pit = rng.random() < 0.25
+            kn = {"shuffle": 0.0, "adversarial_source": rng.random() < 0.3, "cls": "clean"}
+            docs = [gen_search_doc(rng, kn, nhits=rng.choice([1, 2, min(size, 3)]), total=total, es6=rng.random() < 0.15, pit=pit) for _ in range(npages)]
+            searches.append({"docs": docs, "size": size, "pages": pages_param, "pit": pit, "knobs": kn,
+                             "start_delay": rng.choice([0, 0, 1, 2, 3]), "delays": [rng.choice([1, 1, 2, 3]) for _ in range(npages + 2)]})
+        yield {"style": style, "searches": searches}
+
+
+def oracle_sa(fulls, size, pages_param):
+    """pages / hits / took / timed_out of one paginated search, from full parsing of its own pages"""
+    tot = fulls[0]["hits"]["total"]
+    hits = tot["value"] if isinstance(tot, dict) else tot
+    rel = tot["relation"] if isinstance(tot, dict) else "eq"
+    pages = pages_needed(hits, size, pages_param)
+    if pages > len(fulls):
+        return {"err": "Exhausted"}
+    return {"ok": {"unit": "pages", "success": True, "pages": pages, "weight": pages, "hits": hits, "hits_relation": rel,
+                   "took": sum(f["took"] for f in fulls[:pages]), "timed_out": any(f["timed_out"] for f in fulls[:pages])}}
+
+
+def sa_mconv(r):
+    if r["pages"] == 0:
+        return {"unit": "pages", "success": True, "timed_out": canon(False), "took": canon(0)}
+    return {"unit": "pages", "success": True, "pages": r["pages"], "weight": r["pages"], "hits": canon(m_val(r["hits"])),
+            "hits_relation": canon(m_val(r["hits_relation"])), "took": canon(int(r["took"])), "timed_out": canon(m_val(r["timed_out"]))}
+
+
+def run_concurrent(ctx, case):
+    from esrally.driver import runner
+
+    runner.register_default_runners()
+    registered = runner.runner_for("paginated-search")
+    style, searches = case["style"], case["searches"]
+    texts, fulls = [], []
+    for sc in searches:
+        ts = [render(ctx, d, style)[0] for d in sc["docs"]]
+        texts.append(ts)
+        fulls.append([check_render(ctx, d, t) for d, t in zip(sc["docs"], ts)])
+    log = []
+    ess = [SuspendingEs(texts[k], k, log, sc["delays"]) for k, sc in enumerate(searches)]
+
+    async def one(k):
+        sc = searches[k]
+        params = {"operation-type": "paginated-search", "index": "idx-%d" % k, "body": {"query": {"match_all": {}}, "sort": [{"ts": "asc"}]},
+                  "pages": sc["pages"], "results-per-page": sc["size"]}
+        if sc["pit"]:
+            params["with-point-in-time-from"] = "open-pit"
+        for _ in range(sc["start_delay"]):
+            await asyncio.sleep(0)
+
+        async def call():
+            async with registered:
+                return await registered({"default": ess[k]}, params)
+
+        try:
+            if sc["pit"]:
+                async with runner.CompositeContext():
+                    runner.CompositeContext.put("open-pit", "pit-0")
+                    return {"ok": await call()}
+            return {"ok": await call()}
+        except Exception as e:  # noqa
+            return {"err": type(e).__name__}
+
+    async def go():
+        return await asyncio.gather(*[one(k) for k in range(len(searches))])
+
+    loop = asyncio.new_event_loop()
+    try:
+        results = loop.run_until_complete(go())
+    except Exception as e:  # noqa
+        ctx.diff("concurrent-searches-crashed", "every search ends with a result or its own error", f"{type(e).__name__}: {e}")
+        return
+    finally:
+        loop.close()
+    overlapped = any(log[k] != log[k + 1] and log[k] in log[k + 1:] for k in range(len(log) - 1))
+    # the model under the schedule that was observed (+ a fair tail; finished searches ignore further quanta)
+    sched = list(log) + [k for k in range(len(searches)) for _ in range(len(searches[k]["docs"]) + 1)]
+    m = ctx.model("jsonfast", "sa_concurrent", {"style": style, "sched": sched, "calls": [
+        {"docs": sc["docs"], "pit": sc["pit"], "size": sc["size"], "pages": BIG if sc["pages"] == "all" else int(sc["pages"])} for sc in searches]})
+    sizes = sorted({sc["size"] for sc in searches})
+    for k, sc in enumerate(searches):
+        i, mr = results[k], m["r"][k]
+        ii = m_except(i, lambda r: {a: (canon(v) if a in ("hits", "hits_relation", "timed_out", "took") else v) for a, v in r.items()})
+        if "pending" in mr:
+            ctx.diff(f"concurrent-search-{k}-model-unfinished", mr, ii)
+        elif mr.get("err") == "Unsupported":
+            ctx.count("out-of-model")
+        elif m_except(mr, sa_mconv) != ii:
+            ctx.diff(f"concurrent-search-{k}", m_except(mr, sa_mconv), ii)
+        sent = [canon(r["body"].get("search_after")) for r in ess[k].requests[1:]]
+        if "ok" in mr:
+            mc = [canon(None if c is None else m_doc(c[0])) for c in mr["ok"]["cursors"]]
+            if mc[:len(sent)] != sent or len(mc) - len(sent) not in (0, 1):
+                ctx.diff(f"concurrent-search-{k}-cursors", mc, sent)
+        if any(r["path"] != "/idx-%d/_search" % k for r in ess[k].requests if not sc["pit"]):
+            ctx.diff(f"concurrent-search-{k}-path", "/idx-%d/_search" % k, [r["path"] for r in ess[k].requests])
+        # direct oracle: the search alone, by full parsing of its own pages
+        if all((not sc["pit"]) or f.get("pit_id") for f in fulls[k]):
+            for j, c in enumerate(sent):
+                if j < len(fulls[k]) and c != canon(expected_last_sort(fulls[k][j])):
+                    report_cursor(ctx, classify_cursor(texts[k][j], fulls[k][j], style),
+                                  "search_after sent with the next request differs from the sort value of the last hit",
+                                  canon(expected_last_sort(fulls[k][j])), c)
+            exp = oracle_sa(fulls[k], sc["size"], sc["pages"])
+            got = {"ok": loose(i["ok"])} if "ok" in i else i
+            want = {"ok": loose(exp["ok"])} if "ok" in exp else exp
+            if got != want and i.get("err") != "JSONDecodeError":
+                ctx.fail("concurrent-search-accounting",
+                         f"search {k} (results-per-page {sc['size']}, pages {sc['pages']}) in flight together with searches of page sizes "
+                         f"{[x['size'] for x in searches]} on the shared runner: pages / hits / took / timed_out differ from full parsing of its own pages",
+                         want, ii)
+    ctx.count("overlapped:" + str(overlapped))
+    ctx.count("page-sizes-in-flight:" + str(min(len(sizes), 3)))
+    ctx.sig([m.get("tags"), len(searches), min(len(sizes), 3), overlapped, sorted(("ok" in r and r["ok"].get("pages", 0)) for r in results)[:4]],
+            nontrivial=overlapped and len(sizes) > 1)
+
+
 STREAMS = [
     Stream("ijson_events", gen_events, run_events, quick=1500, thorough=150000),
     Stream("parse", gen_parse, run_parse, quick=2500, thorough=250000),
@@ -1641,4 +1857,5 @@ STREAMS = [
     Stream("raw_text", gen_text, run_text, quick=2500, thorough=250000),
     Stream("extractor_sessions", gen_extractor_sessions, run_extractor_session, quick=1200, thorough=60000),
     Stream("query_sessions", gen_query_sessions, run_query_session, quick=500, thorough=20000),
+    Stream("concurrent_searches", gen_concurrent, run_concurrent, quick=400, thorough=20000),
 ]
